@@ -42,7 +42,7 @@ const (
 		"</hello>]]>]]>"
 
 	helloPattern      = `(?is)(<(\w+:)?hello.*</(\w+:)?hello>)`
-	capabilityPattern = `(?i)(?:<(?:\w+:)?capability>)(.*?)(?:</(?:\w+:)?capability>)`
+	capabilityPattern = `(?is)(?:<(?:\w+:)?capability>)(.*?)(?:</(?:\w+:)?capability>)`
 
 	messageIDPattern      = `(?i)(?:message-id="(\d+)")`
 	subscriptionIDPattern = `(?i)<subscription-id.*>(\d+)</subscription-id>`
